@@ -4,7 +4,7 @@ import NgoVerif.Proofs.C09link
 import NgoVerif.Proofs.C11check
 import NgoVerif.Proofs.C16stm
 import NgoVerif.Proofs.C05sem
-import NgoVerif.Proofs.C10stm
+import NgoVerif.Proofs.C10multi
 /-!
 # Driver ops that evaluate the *side conditions of the end-to-end theorems* on what the real passes did
 
@@ -17,6 +17,8 @@ import NgoVerif.Proofs.C10stm
   are returned and compared by the harness with what the real pass emitted.
 * `(sem_dup_cond <rule> <canonical aux rule> <rewritten rule> <context>)` → `(ok <renaming ok> <splitCheck> <ctxCheck> <aux rule> <rewritten rule>)`:
   `Proofs.C10stm.dupCheck` for the FIRST place of use of a literal set factored out by `duplication`.
+* `(sem_dup_all <canonical aux rule> ((<rule before> <rule after>) …) <context>)` → `(ok <some place> <every placeCheck> <ctxAvoidsCheck> <aux rule> ((<before> <after>) …))`:
+  `Proofs.C10multi.placeCheck` for ALL places of use of one factored literal set (hypotheses of `C10_factor_all_*`).
 * `(sem_okstm <stm>)` → `(ok <okBody>)`: the hypothesis of the `_partial` theorems about `expand_comparisons`.
 * `(sem_unused_cond <prog> "n" k)` → `(ok <every statement stmOk> <Unused n k prog>)`: the hypothesis of
   `C09_removal_sound/complete` for the program `unused` removed the rules of `n/k` from.
@@ -90,6 +92,38 @@ def handleSem : Sexp → Option Sexp
           | none => .list [.atom "unsupported", .str "arguments of the auxiliary atom are not variables"]
         | _, _ => .list [.atom "unsupported", .str "shape of the auxiliary rule / the rewritten rule"]
       | _, _, _, _ => .list [.atom "unsupported", .str "rules"]
+  | .list [.atom "sem_dup_all", a, .list uses, p] =>
+    -- ALL places of use of one factored literal set: `a` the canonical auxiliary rule, `uses` = ((<rule before> <rule after>) …),
+    -- `p` the context (every other statement of the rewritten program)
+    some <| match Stm.ofSexp a, Prog.ofSexp p with
+      | some (.rule la ca (.lit (.pos, .sym (.fn auxName vterms false))) sb), some ctx =>
+        match vterms.mapM (fun t => match t with | .var v => some v | _ => none) with
+        | some V =>
+          let c : Proofs.C10multi.Canon := { auxName := auxName, V := V, Sb := sb, la := la, ca := ca }
+          let one (u : Sexp) : Option (Bool × Sexp × Sexp) :=
+            match u with
+            | .list [o, r] =>
+              match Stm.ofSexp o, Stm.ofSexp r with
+              | some (.rule l cl h body), some (.rule _ _ _ ubody) =>
+                match ubody.getLast? with
+                | some (.lit (.pos, .sym (.fn _ aterms false))) =>
+                  match aterms.mapM (fun t => match t with | .var v => some v | _ => none) with
+                  | some args =>
+                    let pairs := V.zip args
+                    let pl := Proofs.C10multi.placeOf l cl h body ubody.dropLast pairs
+                    some (V.length == args.length && Proofs.C10multi.placeCheck c l cl h body ubody.dropLast pairs,
+                          (c.split pl).orig.toSexp, (c.split pl).updRule.toSexp)
+                  | none => none
+                | _ => none
+              | _, _ => none
+            | _ => none
+          match uses.mapM one with
+          | some rs =>
+            .list [.atom "ok", ofBool (!rs.isEmpty), ofBool (rs.all (·.1)), ofBool (Proofs.C10multi.ctxAvoidsCheck c ctx),
+                   c.stm.toSexp, .list (rs.map fun r => .list [r.2.1, r.2.2])]
+          | none => .list [.atom "unsupported", .str "shape of a place of use"]
+        | none => .list [.atom "unsupported", .str "auxiliary head arguments are not variables"]
+      | _, _ => .list [.atom "unsupported", .str "auxiliary rule / context"]
   | _ => none
 
 end NgoVerif
